@@ -42,7 +42,9 @@ def gen_cases(tier, seed, ctx):
     scripts = [('META', '{p}'), ('READSEQ', '{p} 7,4096 {z}'), ('SCAN', '{p} vdfrc {z}'), ('CHUNKSEQ', '{p} 0,1,0c,2,1c,0 {z}'),
                ('SCAN', '{p} rvc {z}'), ('READSEQ', '{p} 100000 {z}')]
     for kind, p, zt, b in files:
-        for op, args in (scripts if tier == 'thorough' else rnd.sample(scripts, 3)):
+        # headers declaring huge sizes get every script in both tiers (loops bounded by declared sizes must still end)
+        huge = kind in ('resealed-sum-boundary', 'resealed-comp_len', 'resealed-len')
+        for op, args in (scripts if (tier == 'thorough' or huge) else rnd.sample(scripts, 3)):
             cases.append(E.Case('x%d' % len(cases), '%s %s' % (op, args.format(p=p, z=zt)), dict(kind=kind, variant='asan')))
     return cases
 
@@ -56,7 +58,8 @@ def post(recs, ctx):
     tdir = B.build_tools(variant='asan')
     env = dict(os.environ, ASAN_OPTIONS='allocator_may_return_null=1:detect_leaks=0:exitcode=99',
                UBSAN_OPTIONS='halt_on_error=1:exitcode=98:print_stacktrace=1')
-    files = ctx['files']
+    files = ctx.get('files')
+    if not files: return          # replay of a single library op
     valid = [p for k, p, z, b in files if k == 'valid'][0]
     rnd = random.Random(ctx['seed'])
     sample = files if ctx['tier'] == 'thorough' else rnd.sample(files, min(len(files), 400))
